@@ -613,6 +613,9 @@ DecompressJpegRectBPP(rfbClient* client, int x, int y, int w, int h)
   int compressedLen;
   uint8_t *compressedData, *dst;
   int pixelSize, pitch, flags = 0;
+#if BPP == 16
+  uint8_t *rgb16 = NULL;
+#endif
 
   compressedLen = (int)ReadCompactLen(client);
   if (compressedLen <= 0) {
@@ -646,7 +649,13 @@ DecompressJpegRectBPP(rfbClient* client, int x, int y, int w, int h)
   flags = 0;
   pixelSize = 3;
   pitch = w * pixelSize;
-  dst = (uint8_t *)client->buffer;
+  /* the RGB scratch copy of the rectangle: client->buffer holds only RFB_BUFFER_SIZE bytes */
+  if (w <= 0 || h <= 0 || (rgb16 = malloc((size_t)w * h * 3)) == NULL) {
+    rfbClientLog("Tight JPEG: cannot allocate the %dx%d scratch rectangle.\n", w, h);
+    free(compressedData);
+    return FALSE;
+  }
+  dst = rgb16;
 #else
   if (client->format.bigEndian) flags |= TJ_ALPHAFIRST;
   if (client->format.redShift == 16 && client->format.blueShift == 0)
@@ -661,6 +670,9 @@ DecompressJpegRectBPP(rfbClient* client, int x, int y, int w, int h)
                    dst, w, pitch, h, pixelSize, flags)==-1) {
     rfbClientLog("TurboJPEG error: %s\n", tjGetErrorStr());
     free(compressedData);
+#if BPP == 16
+    free(rgb16);
+#endif
     return FALSE;
   }
 
@@ -672,7 +684,7 @@ DecompressJpegRectBPP(rfbClient* client, int x, int y, int w, int h)
   dst = &client->frameBuffer[y * pitch + x * pixelSize];
   {
     CARDBPP *dst16=(CARDBPP *)dst, *dst2;
-    char *src = client->buffer;
+    char *src = (char *)rgb16;
     int i, j;
 
     for (j = 0; j < h; j++) {
@@ -681,6 +693,7 @@ DecompressJpegRectBPP(rfbClient* client, int x, int y, int w, int h)
       }
       dst16 += client->width;
     }
+    free(rgb16);
   }
 #endif
 
